@@ -21,7 +21,8 @@ from .common import AnalysisError, norm_stmt, parse_py
 SAFE_BUILTINS = {"tuple": tuple, "sorted": sorted, "map": map, "set": set, "dict": dict, "list": list, "str": str,
                  "len": len, "frozenset": frozenset, "range": range, "zip": zip, "enumerate": enumerate, "min": min,
                  "max": max, "bool": bool, "int": int, "any": any, "all": all,
-                 "isinstance": isinstance, "float": float, "complex": complex, "bytes": bytes, "type": type, "abs": abs}
+                 "isinstance": isinstance, "float": float, "complex": complex, "bytes": bytes, "type": type, "abs": abs,
+                 "ord": ord, "chr": chr, "repr": repr}
 SAFE_MODULE_ATTRS = {
     "re": {"escape": re.escape, "UNICODE": re.UNICODE},
     "_itertools": {"permutations": itertools.permutations, "product": itertools.product},
@@ -173,12 +174,50 @@ def fold_expr(expr: ast.expr, extra: Optional[dict] = None, data_attrs: tuple = 
     f = fold_tokenize()
     ver = _Verifier(set(f.values), set(f.pure_funcs))
     ver.data_attrs = set(data_attrs)
+    lits = {k: v for k, v in module_literals().items() if k not in (extra or {})}
+    extra = dict(lits, **(extra or {}))
     local = set(extra or {})
     if not ver.ok_expr(expr, local):
         raise AnalysisError(f"cannot fold `{norm_stmt(expr)}`: {ver.why}")
     ns = dict(f.ns)  # type: ignore[attr-defined]
     ns.update(extra or {})
     return eval(compile(ast.Expression(expr), "<fold expr>", "eval"), ns)  # noqa: S307
+
+
+_LITERALS: Optional[dict] = None
+
+
+def module_literals() -> dict:
+    """Module-level names of subheader.py / tokenizer.py bound once to a literal (tuple/frozenset/str/number displays of
+    constants): a guard may name its table instead of spelling it out."""
+    global _LITERALS
+    if _LITERALS is None:
+        from .common import parse_py
+        out: dict = {}
+        for rel in (repo.SUBHEADER, repo.TOKENIZER):
+            mod = parse_py(rel)
+            counts: dict[str, int] = {}
+            for n in ast.walk(mod):
+                if isinstance(n, ast.Name) and isinstance(n.ctx, ast.Store):
+                    counts[n.id] = counts.get(n.id, 0) + 1
+            for st in mod.body:
+                tgt = val = None
+                if isinstance(st, ast.Assign) and len(st.targets) == 1 and isinstance(st.targets[0], ast.Name):
+                    tgt, val = st.targets[0].id, st.value
+                elif isinstance(st, ast.AnnAssign) and isinstance(st.target, ast.Name) and st.value is not None:
+                    tgt, val = st.target.id, st.value
+                if tgt is None or counts.get(tgt) != 1:
+                    continue
+                if isinstance(val, ast.Call) and isinstance(val.func, ast.Name) and val.func.id in ("frozenset", "tuple", "set") and len(val.args) == 1:
+                    inner, wrap = val.args[0], {"frozenset": frozenset, "tuple": tuple, "set": frozenset}[val.func.id]
+                else:
+                    inner, wrap = val, (lambda x: x)
+                try:
+                    out[tgt] = wrap(ast.literal_eval(inner))
+                except Exception:
+                    continue
+        _LITERALS = out
+    return _LITERALS
 
 
 class PureEvalError(Exception):
